@@ -7027,9 +7027,9 @@ type elem =
 | EProse of text
 | EHeading of nat * text
 | EBlank
-| EForeign of nat * text * text list
+| EForeign of nat * text * text list * text
 | EScrut of nat * text option * text list
-   * ((text * text list) * bline list) option
+   * ((text * text list) * bline list) option * text
 
 (** val fence : nat -> text **)
 
@@ -7057,9 +7057,9 @@ let render_elem = function
 | EHeading (k, t) ->
   (app (hashes k) (app ((Npos (XO (XO (XO (XO (XO XH)))))) :: []) t)) :: []
 | EBlank -> [] :: []
-| EForeign (n0, lang, body) ->
-  app ((app (fence n0) lang) :: []) (app body ((fence n0) :: []))
-| EScrut (n0, cfg, comments, cmd) ->
+| EForeign (n0, lang, body, tail) ->
+  app ((app (fence n0) lang) :: []) (app body ((app (fence n0) tail) :: []))
+| EScrut (n0, cfg, comments, cmd, tail) ->
   app
     ((app (fence n0)
        (app sCRUT
@@ -7077,7 +7077,7 @@ let render_elem = function
            let (c, conts) = p0 in
            app ((app p_DOLLAR c) :: [])
              (app (map (fun x -> app p_GT x) conts) (map render_body body))
-         | None -> []) ((fence n0) :: [])))
+         | None -> []) ((app (fence n0) tail) :: [])))
 
 (** val render_md : elem list -> text list **)
 
@@ -7109,7 +7109,7 @@ let rec md_tests_from d line st =
          (title_line st
            (app (hashes k) (app ((Npos (XO (XO (XO (XO (XO XH)))))) :: []) t)))
      | EBlank -> md_tests_from r next (title_line st [])
-     | EScrut (_, cfg, comments, cmd) ->
+     | EScrut (_, cfg, comments, cmd, _) ->
        (match cmd with
         | Some p ->
           let (p0, body) = p in
@@ -7206,13 +7206,15 @@ let elem_ok pe_ok front_ok cfg_ok first = function
                                    | [] -> false
                                    | _ :: _ -> true)
 | EBlank -> true
-| EForeign (n0, lang, body) ->
-  (&&) ((&&) (leb (S (S (S O))) n0) (lang_ok lang))
-    (forallb (fun l -> (&&) (negb (closes n0 l)) (no_nl l)) body)
-| EScrut (n0, cfg, comments, cmd) ->
+| EForeign (n0, lang, body, tail) ->
+  (&&)
+    ((&&) ((&&) (leb (S (S (S O))) n0) (lang_ok lang))
+      (forallb (fun l -> (&&) (negb (closes n0 l)) (no_nl l)) body))
+    (no_nl tail)
+| EScrut (n0, cfg, comments, cmd, tail) ->
   (&&)
     ((&&)
-      ((&&) (leb (S (S (S O))) n0)
+      ((&&) ((&&) (leb (S (S (S O))) n0) (no_nl tail))
         (match cfg with
          | Some c -> cfg_text_ok cfg_ok c
          | None -> true))
